@@ -56,8 +56,7 @@ def extra(ctx, res):  # noqa: F811
         fs.append(fnd("C07.G1", v, "expected exactly one sort of the fields (non-skipped first), found %d" % len(sorts)))
     else:
         sb, sc = sorts[0]
-        if sc.name != "sort_by_key":
-            fs.append(fnd("C07.G1", v, "fields are sorted with %s: only the stable sort_by_key keeps the non-skipped fields in declaration order" % sc.name, sb))
+        # (that the sort is the *stable* sort_by_key matters for the declaration order of the accepted-keys list: rule C09.G1 in p_c09.py)
         clo = strip_refs(v.origin(v.blocks[sb]["term"]["args"][1]))
         ok = False
         if clo[0] == "agg" and clo[1] == "closure":
@@ -128,16 +127,24 @@ def extra(ctx, res):  # noqa: F811
     # ---------------------------------------------------------------- G2
     fs = []
     # fields: key_name_for_ident(field ident, data_attrs.rename_all, field rename)
-    kc = [bb for bb, c in v.calls() if c.fn is not None and c.path == "parse_type::key_name_for_ident"]
-    if len(kc) != 1:
+    kcs = [(v, bb) for bb, c in v.calls() if c.fn is not None and c.path == "parse_type::key_name_for_ident"]
+    for cb in crate.bodies:
+        if cb.kind == "Closure" and cb.root == nf.path:
+            cv2 = View(cb)
+            kcs += [(cv2, bb) for bb, c in cv2.calls() if c.fn is not None and c.path == "parse_type::key_name_for_ident"]
+    if len(kcs) != 1:
         fs.append(fnd("C07.G2", v, "expected one key_name_for_ident call for fields"))
     else:
-        a = [canon(v, v.origin(x)) for x in v.blocks[kc[0]]["term"]["args"]]
-        ok0 = term_mentions(a[0], lambda t: t[0] == "field" and t[3] == "ident") or term_mentions(a[0], lambda t: t[0] == "call" and (call_name(v, t) or "").endswith("to_string"))
-        ok1 = term_mentions(a[1], lambda t: t[0] == "field" and t[3] == "rename_all" and strip_refs(t[1]) == ("param", 2))
+        kv_, kbb = kcs[0]
+        a = [canon(kv_, kv_.origin(x)) for x in kv_.blocks[kbb]["term"]["args"]]
+        ok0 = term_mentions(a[0], lambda t: t[0] == "field" and t[3] == "ident") or term_mentions(a[0], lambda t: t[0] == "call" and (call_name(kv_, t) or "").endswith("to_string"))
+        if kv_ is v:
+            ok1 = term_mentions(a[1], lambda t: t[0] == "field" and t[3] == "rename_all" and strip_refs(t[1]) == ("param", 2))
+        else:
+            ok1 = term_mentions(a[1], lambda t: t[0] == "field" and t[3] == "rename_all") and term_mentions(a[1], lambda t: t[0] == "field" and t[3] == "data_attrs")
         ok2 = term_mentions(a[2], lambda t: t[0] == "field" and t[3] == "rename")
         if not (ok0 and ok1 and ok2):
-            fs.append(fnd("C07.G2", v, "a field's key is not computed from (its identifier, the rename_all of the attributes it is parsed under, its own rename)", kc[0]))
+            fs.append(fnd("C07.G2", kv_, "a field's key is not computed from (its identifier, the rename_all of the attributes it is parsed under, its own rename)", kbb))
     dp = body("parse_type::DerivedTypeInfo::parse")
     dv = View(dp)
     kc = [bb for bb, c in dv.calls() if c.fn is not None and c.path == "parse_type::key_name_for_ident"]
